@@ -166,9 +166,9 @@ PROPS = {
         'title': 'Decode -> encode -> decode returns the same map',
     },
     'C03': {
-        'families': [('kv', ['KV']), ('kt', ['KT-K1', 'KT-K2', 'KT-K3', 'KT-K7', 'KT-K11', 'KT-K12']), ('dg', ['DG-D1', 'DG-D2', 'DG-D3', 'DG-D6']),
+        'families': [('kv', ['KV']), ('kt', ['KT-K1', 'KT-K2', 'KT-K3', 'KT-K7', 'KT-K11', 'KT-K12', 'KT-K15']), ('dg', ['DG-D1', 'DG-D2', 'DG-D3', 'DG-D6']),
                      ('sc', ['SC-C11']), ('nf', ['NF'])],
-        'floors': {'KV': 15, 'KT-K1': 33, 'KT-K2': 30, 'KT-K7': 6, 'KT-K12': 6, 'SC-C11': 33, 'NF': 15},
+        'floors': {'KT-K15': 50, 'KV': 15, 'KT-K1': 33, 'KT-K2': 30, 'KT-K7': 6, 'KT-K12': 6, 'SC-C11': 33, 'NF': 15},
         'title': 'Edits to a decoded map survive encode -> decode',
     },
     'C04': {
